@@ -8,6 +8,7 @@ from vlib.harness import V, derive_seed, run_shards
 from vlib.lib import call
 
 PROPERTY = 'C13'
+AMBIENT_PASS = True        # the same search once more under unusual ambient settings (vlib.run.AMBIENT_SETTINGS)
 RULE = ('meeting dates = days of the leap cycle 2016-01-01..2019-12-31 (+ 2000-02-29, 2100-02-28/03-01, 1900 cases); birth '
         'dates built AROUND the cut-offs: every day within +-3 days of each anniversary (0..110 years back) of the meeting '
         'day, 31 Aug, 1 Sep, 31 Dec, 1 Jan and 28/29 Feb, plus a seeded uniform sample; x category {TF, XC, ROAD} x vets x '
